@@ -149,7 +149,7 @@ def c02(case, F):
             if e["type"] == "TerminatedWorkerError":
                 want = expected_code_string(d0["src"])
                 codes = [expected_code_string(x["src"]) for x in must]
-                if want and not any(c and c in e["str"] for c in codes):
+                if want and not any(c and c in e["str"] for c in codes) and not case.get("config", {}).get("sigchld_ignore"):
                     v.append((_sig(case, F, "exit_code_not_named"), witness_text(case, F, "TerminatedWorkerError does not name the exit status %s of the dead worker: %s" % (want, e["str"][:400]))))
             continue
         if _fut_expected_ok(f):
@@ -646,6 +646,16 @@ def c09(case, F):
         if after.get("shutdown") and single:
             v.append((_sig(case, F, "returned_shut_down"), witness_text(case, F, "returned executor is flagged shut down at return")))
         prev_kw = _norm_kw(kw) if not r["same"] or prev_kw is None else prev_kw
+    # a caller that has seen a future of instance X fail with the pool's error must never get X back
+    for o in ops:
+        c, e = o["call"], o["end"]
+        w = c["a"].get("after_failure_of")
+        if not w or e["k"] != "ret":
+            continue
+        fd = (F.futs.get(w) or {}).get("done")
+        r = e["r"]
+        if fd and fd["state"] == "exception" and fd["exc"]["is_cf_broken"] and fd["t"] < c["t"] and r.get("same"):
+            v.append((_sig(case, F, "broken_instance_handed_out_after_failure"), witness_text(case, F, "future %s had already failed with %s when get_reusable_executor was called, yet the factory returned the same instance (flags at call begin: broken=%s shutdown=%s)" % (w, fd["exc"]["type"], (r.get("before") or {}).get("broken"), (r.get("before") or {}).get("shutdown")))))
     # racing callers that vary only max_workers on a healthy pool all get THE singleton
     if not single and case.get("meta", {}).get("gen") == "g_factory_mt" and not _has_deaths(F):
         ids = {}
@@ -1052,7 +1062,8 @@ def c13(case, F):
         c, e = o["call"], o["end"]
         r = e["r"] if isinstance(e.get("r"), dict) else {}
         if c["op"] == "mk":
-            created[c["a"]["obj"]] = set(r.get("shm") or []) - set(r.get("before") or [])
+            # exact names read from the object itself when available (threads create primitives concurrently)
+            created[c["a"]["obj"]] = set(r["names"]) if r.get("names") else (set(r.get("shm") or []) - set(r.get("before") or []))
         elif c["op"] == "drop":
             names = created.pop(c["a"]["obj"], set())
             still = names & set(r.get("shm") or [])
@@ -1067,6 +1078,12 @@ def c13(case, F):
             gone = names - set(r.get("shm") or [])
             if gone:
                 v.append((_sig(case, F, "child_copy_unlinked", how=c["a"].get("how")), witness_text(case, F, "a child that received a pickled copy of %s (%s) removed its semaphores %s" % (c["a"]["obj"], c["a"].get("how"), sorted(gone)))))
+        elif c["op"] == "shmlist" and not c["a"].get("expect_empty"):
+            have = set(r.get("shm") or [])
+            for obj, nms in (r.get("live_names") or {}).items():
+                gone = sorted(set(nms) - have)
+                if gone:
+                    v.append((_sig(case, F, "unlinked_while_alive", via="listing"), witness_text(case, F, "named semaphores %s of the live object %s are no longer in /dev/shm" % (gone, obj))))
         elif c["op"] == "shmlist" and c["a"].get("expect_empty"):
             if r.get("shm"):
                 v.append((_sig(case, F, "not_unlinked_when_collected", what="all"), witness_text(case, F, "every primitive and executor was released and collected, yet /dev/shm still holds %s" % r.get("shm"))))
